@@ -4,6 +4,7 @@ package acc
 
 import (
 	"fmt"
+	"regexp"
 	"strings"
 
 	"github.com/gopacket/gopacket"
@@ -127,6 +128,19 @@ func Exec(p gopacket.Packet, s Step) string {
 			return "<none>"
 		}
 		l := ls[s.Arg%len(ls)]
+		if df, ok := l.(*gopacket.DecodeFailure); ok {
+			// renderings of a decode failure embed the goroutine stack captured by the recovered panic (as text or
+			// as a byte array): call the renderer, but compare only the error text
+			switch s.Op {
+			case "LayerString":
+				_ = gopacket.LayerString(l)
+			case "LayerDump":
+				_ = gopacket.LayerDump(l)
+			default:
+				_ = gopacket.LayerGoString(l)
+			}
+			return "DecodeFailure:" + df.Error().Error()
+		}
 		switch s.Op {
 		case "LayerString":
 			return stripStacks(gopacket.LayerString(l))
@@ -168,10 +182,16 @@ func Exec(p gopacket.Packet, s Step) string {
 // (addresses and goroutine ids differ between runs by design).
 func stripStacks(s string) string {
 	if i := strings.Index(s, "goroutine "); i >= 0 {
-		return s[:i] + "<stack>"
+		s = s[:i] + "<stack>"
+	}
+	if strings.Contains(s, "(0x") {
+		// %#v renderings print pointer values, e.g. err:(*errors.errorString)(0xc000123456)
+		s = ptrRe.ReplaceAllString(s, "(ptr)")
 	}
 	return s
 }
+
+var ptrRe = regexp.MustCompile(`\(0x[0-9a-f]{6,}\)`)
 
 // Run executes the whole program under recover. It returns the per-step results and, if a step panicked,
 // a failure keyed (accessor name, innermost gopacket function).
